@@ -127,7 +127,7 @@ func init() {
 	register(&Check{
 		ID:    "C13",
 		Level: "exploration",
-		Rule: "two seeded classes: (pass-through) a request whose protocol, codec and compression the service accepts, with arbitrary extra headers, query string, declared content length and body bytes that need not be valid in the protocol; " +
+		Rule: "two seeded classes: (pass-through) a request whose protocol, codec and compression the service accepts, with arbitrary extra headers, other legal spellings of the content type, query string, declared content length and body bytes that need not be valid in the protocol, GETs also under small URL limits; " +
 			"(unknown) a request for a path no endpoint matches, or a well-formed RPC for a method without REST binding on a REST-only service, with the unknown-endpoint handler installed; the downstream handler answers with an arbitrary status, header set, body, trailers and flush pattern; " +
 			"all delivery segmentations, read sizes, body cuts and connection errors. oracle: method, URL (path, raw path, raw query), protocol version, host, request-URI, header multimap, ContentLength, body bytes and body error at the handler equal what the client sent; " +
 			"status, headers, body, trailers and flush count at the client equal what the handler wrote. distinct = (class, client form, schedule hash); non-trivial = the downstream handler was invoked",
